@@ -3,6 +3,7 @@ package main
 import (
 	"encoding/json"
 	"fmt"
+	"go/token"
 	"go/types"
 	"os"
 	"path/filepath"
@@ -34,8 +35,40 @@ type baseLoop struct {
 }
 
 type baseFn struct {
-	Locals []baseLocal `json:"locals"`
-	Loops  []baseLoop  `json:"loops"`
+	Locals   []baseLocal    `json:"locals"`
+	Loops    []baseLoop     `json:"loops"`
+	Sites    map[string]int `json:"sites,omitempty"`    // how many sites of each kind (Return, calls per callee name) the function has
+	Counters []string       `json:"counters,omitempty"` // variables that are incremented by one somewhere (loop counters)
+}
+
+// siteCounts: the number of instructions per site kind, as obligation names count them (`Return#k`,
+// `Callee#k`).
+func siteCounts(fn *ssa.Function) map[string]int {
+	m := map[string]int{}
+	for _, b := range fn.Blocks {
+		for _, i := range b.Instrs {
+			switch c := i.(type) {
+			case *ssa.Return:
+				m["Return"]++
+			case ssa.CallInstruction:
+				m[calleeName(c.Common())]++
+			}
+		}
+	}
+	return m
+}
+
+// siteShifted: does fn have another number of sites of this kind than when the baseline was taken
+// (so that ordinals of that kind may have moved)?
+func siteShifted(bb bindingBase, fnKey string, fn *ssa.Function, kind string) bool {
+	if bb == nil || fn == nil {
+		return false
+	}
+	base := bb[fnKey]
+	if base == nil || base.Sites == nil {
+		return false
+	}
+	return siteCounts(fn)[kind] != base.Sites[kind]
 }
 
 type bindingBase map[string]*baseFn
@@ -85,8 +118,8 @@ func localsOf(fn *ssa.Function) []baseLocal {
 
 // rebindLocal: name does not resolve in fn any more; which variable took its place?
 func (e *Engine) rebindLocal(fn *ssa.Function, name string) string {
-	if e.bindBase == nil {
-		return ""
+	if e.bindBase == nil || name == "rangeindex" {
+		return "" // the hidden index of a range loop is not a renamed variable (see newCounter)
 	}
 	base := e.bindBase[e.fnKey(fn)]
 	if base == nil {
@@ -112,7 +145,7 @@ func (e *Engine) rebindLocal(fn *ssa.Function, name string) string {
 	var cands []baseLocal
 	seen := map[string]bool{}
 	for _, c := range cur {
-		if c.Type == was.Type && !known[c.Name] && !seen[c.Name] {
+		if c.Type == was.Type && !known[c.Name] && !seen[c.Name] && c.Name != "rangeindex" {
 			seen[c.Name] = true
 			cands = append(cands, c)
 		}
@@ -179,7 +212,11 @@ func cmdBindings(args []string) {
 				if fn == nil || fn.Blocks == nil || out[k] != nil {
 					continue
 				}
-				bf := &baseFn{Locals: localsOf(fn)}
+				bf := &baseFn{Locals: localsOf(fn), Sites: siteCounts(fn)}
+				for c := range counters(fn) {
+					bf.Counters = append(bf.Counters, c)
+				}
+				sort.Strings(bf.Counters)
 				for _, li := range e.loopsOf(fn) {
 					bf.Loops = append(bf.Loops, e.loopSignature(fn, li))
 				}
@@ -204,7 +241,9 @@ func (e *Engine) loopSignature(fn *ssa.Function, li *LoopInfo) baseLoop {
 			switch i := ins.(type) {
 			case *ssa.Call:
 				if _, isB := i.Call.Value.(*ssa.Builtin); !isB {
-					calls[calleeName(&i.Call)] = true
+					if n := calleeName(&i.Call); !chattyCallee[n] {
+						calls[n] = true
+					}
 				}
 			case *ssa.Next:
 				sig.Kind = "range-map"
@@ -275,10 +314,18 @@ func (e *Engine) contractLoopOrd(f *Frame, li *LoopInfo) int {
 	return m[li.Ord]
 }
 
+const minLoopSimilarity = 0.5
+
+// calls that come and go with routine edits and say nothing about what a loop does
+var chattyCallee = map[string]bool{"Debug": true, "Info": true, "Warn": true, "Error": true, "Printf": true, "Println": true,
+	"Sprintf": true, "Errorf": true, "Sprint": true, "Add": true, "Inc": true, "Set": true, "Observe": true, "String": true, "Error$": true}
+
+// loopSimilarity: mostly the calls the bodies make (loggers and the like aside), a little the kind -
+// a range loop rewritten as an index loop is still the same loop.
 func loopSimilarity(a, b baseLoop) float64 {
 	s := 0.0
 	if a.Kind == b.Kind {
-		s += 1
+		s += 0.25
 	}
 	in := map[string]bool{}
 	for _, c := range a.Calls {
@@ -318,7 +365,7 @@ func alignLoops(e *Engine, fn *ssa.Function, cur []*LoopInfo, base []baseLoop) m
 			if score[i][j+1] > best {
 				best = score[i][j+1]
 			}
-			if sim := loopSimilarity(sig[i], base[j]); sim >= 1 {
+			if sim := loopSimilarity(sig[i], base[j]); sim >= minLoopSimilarity {
 				if v := score[i+1][j+1] + sim; v > best {
 					best = v
 				}
@@ -331,7 +378,7 @@ func alignLoops(e *Engine, fn *ssa.Function, cur []*LoopInfo, base []baseLoop) m
 	for i < n && j < m {
 		sim := loopSimilarity(sig[i], base[j])
 		switch {
-		case sim >= 1 && score[i][j] == score[i+1][j+1]+sim:
+		case sim >= minLoopSimilarity && score[i][j] == score[i+1][j+1]+sim:
 			out[cur[i].Ord] = base[j].Ord
 			i++
 			j++
@@ -342,4 +389,97 @@ func alignLoops(e *Engine, fn *ssa.Function, cur []*LoopInfo, base []baseLoop) m
 		}
 	}
 	return out
+}
+
+// counters: the int variables of fn that some statement increments by one (loop counters).
+func counters(fn *ssa.Function) map[string]bool {
+	if o := fn.Origin(); o != nil {
+		fn = o
+	}
+	out := map[string]bool{}
+	for _, b := range fn.Blocks {
+		for _, ins := range b.Instrs {
+			st, ok := ins.(*ssa.Store)
+			if !ok {
+				continue
+			}
+			a, ok := st.Addr.(*ssa.Alloc)
+			if !ok || a.Comment == "" || a.Comment == "rangeindex" {
+				continue
+			}
+			bo, ok := st.Val.(*ssa.BinOp)
+			if !ok || bo.Op != token.ADD {
+				continue
+			}
+			ld, ok := bo.X.(*ssa.UnOp)
+			if !ok || ld.X != ssa.Value(a) {
+				continue
+			}
+			if c, ok := bo.Y.(*ssa.Const); ok && c.Value != nil && c.Value.ExactString() == "1" {
+				out[a.Comment] = true
+			}
+		}
+	}
+	return out
+}
+
+// newCounter: the one loop counter of fn that the baseline does not know (a range loop became an index loop).
+func (e *Engine) newCounter(fn *ssa.Function) string {
+	if e.bindBase == nil {
+		return ""
+	}
+	base := e.bindBase[e.fnKey(fn)]
+	if base == nil {
+		return ""
+	}
+	known := map[string]bool{}
+	for _, c := range base.Counters {
+		known[c] = true
+	}
+	found := ""
+	for c := range counters(fn) {
+		if !known[c] {
+			if found != "" {
+				return ""
+			}
+			found = c
+		}
+	}
+	return found
+}
+
+// wasCounter: name was a loop counter of fn in the baseline and is gone now, while fn has more
+// range loops than it had (an index loop became a range loop).
+func (e *Engine) wasCounter(fn *ssa.Function, name string) bool {
+	if e.bindBase == nil {
+		return false
+	}
+	base := e.bindBase[e.fnKey(fn)]
+	if base == nil {
+		return false
+	}
+	isCounter := false
+	for _, c := range base.Counters {
+		if c == name {
+			isCounter = true
+		}
+	}
+	if !isCounter {
+		return false
+	}
+	nowRI, wasRI := 0, 0
+	for _, l := range localsOf(fn) {
+		if l.Name == name {
+			return false
+		}
+		if l.Name == "rangeindex" {
+			nowRI++
+		}
+	}
+	for _, l := range base.Locals {
+		if l.Name == "rangeindex" {
+			wasRI++
+		}
+	}
+	return nowRI > wasRI
 }
